@@ -33,6 +33,11 @@ void vstl_length_error(void) { finish("THROW", 1, 12); }
 #ifndef VSTL_ACCESS_HOOK
 void vstl_access(const void* c) { (void)c; }
 #endif
+/* memory reclamation is not modelled (as in the CBMC environment): objects of harness pools are never really freed */
+void _ZdlPv(void* p) { (void)p; }
+void _ZdaPv(void* p) { (void)p; }
+void _ZdlPvm(void* p, unsigned long n) { (void)p; (void)n; }
+void _ZdaPvm(void* p, unsigned long n) { (void)p; (void)n; }
 void harness(void);
 void ir_run_global_ctors(void) __attribute__((weak));   /* generated C only: static initialisers of the translated module */
 static void run_harness(void) { if (ir_run_global_ctors) ir_run_global_ctors(); harness(); }
